@@ -37,7 +37,7 @@ def bounds(tier):
                 {"alphabet": A7, "n": [3, 9], "only": "strictly alternating signals (pure reversal sequences, deep nesting)"}]
     return [{"alphabet": A5, "n": [2, 9]}, {"alphabet": A7, "n": [2, 7]}, {"alphabet": "near ties " + repr(NEAR), "n": [2, 8]},
             {"alphabet": "2**-30 * {-2..2}", "n": [2, 7]},
-            {"alphabet": A7, "n": [3, 11], "only": "strictly alternating signals"}, {"alphabet": A9, "n": [3, 9], "only": "strictly alternating signals"}]
+            {"alphabet": A7, "n": [3, 10], "only": "strictly alternating signals"}, {"alphabet": A9, "n": [3, 8], "only": "strictly alternating signals"}]
 
 
 def prepare(tier):
@@ -68,7 +68,7 @@ def shards(tier):
         alt = [(A7, 3, 9)]
     else:
         plan = [(A5, 2, 9), (A7, 2, 7), (NEAR, 2, 8), (SMALL, 2, 7)]
-        alt = [(A7, 3, 11), (A9, 3, 9)]
+        alt = [(A7, 3, 10), (A9, 3, 8)]
     out = []
     for alpha, nmin, nmax in plan:
         for n in range(nmin, nmax + 1):
